@@ -91,8 +91,8 @@ class P(FlowFidelity):
         nmsg = rng.choice([3, 4, 6, 8])
         for _ in range(nmsg):
             a = rng.choice(exporters)
-            sets, abstract = [], []
-            for _ in range(rng.choice([1, 1, 2, 3])):
+            sets, abstract, tsets = [], [], []
+            for _ in range(rng.choice([1, 1, 2, 3, 4])):
                 tid = rng.choice(tids)
                 k = rng.random()
                 if k < 0.45 or (a, tid) not in known and k < 0.6:
@@ -103,8 +103,14 @@ class P(FlowFidelity):
                         if g.min_rec_len(t2) > 4:
                             t, o = t2, o2
                     known[(a, tid)] = t; kinds[(a, tid)] = o
-                    sets.append(g.enc_set(g.tpl_set_id(o), g.enc_tpl(t, o)))
-                    abstract.append(("tpl", [(t, o)]))
+                    if tsets and tsets[-1][0] == len(sets) - 1 and tsets[-1][1] == g.tpl_set_id(o) and rng.random() < 0.6:
+                        # SEVERAL template records in one set (the later ones often need no more specifiers than the earlier ones)
+                        tsets[-1][2].append(g.enc_tpl(t, o)); abstract[-1][1].append((t, o))
+                        sets[-1] = g.enc_set(tsets[-1][1], b"".join(tsets[-1][2]))
+                    else:
+                        sets.append(g.enc_set(g.tpl_set_id(o), g.enc_tpl(t, o)))
+                        abstract.append(("tpl", [(t, o)]))
+                        tsets.append((len(sets) - 1, g.tpl_set_id(o), [g.enc_tpl(t, o)]))
                 else:
                     t = known.get((a, tid))
                     if t is None:
